@@ -9,6 +9,7 @@ import (
 	"fmt"
 	"os"
 	"sort"
+	"verif/ref/refec"
 
 	"github.com/piotrnar/gocoin/lib/btc"
 	"github.com/piotrnar/gocoin/lib/chain"
@@ -22,6 +23,42 @@ type Node struct {
 	Dir  string
 	P    refchain.Params
 	Opts NodeOpts
+}
+
+// PurgeUnspendable mirrors utxo.UTXO_PURGE_UNSPENDABLE (what a freshly configured client runs with: its default
+// config file sets Memory.PurgeUnspendableUTXO): the node keeps no output that can never be spent. SetPurge switches the
+// library variable and the comparison: the reference keeps every output, DiffUTXO then ignores the unspendable ones on the
+// reference side (and still reports them as "extra" if the node holds one).
+var PurgeUnspendable bool
+
+func SetPurge(on bool) {
+	PurgeUnspendable = on
+	utxo.UTXO_PURGE_UNSPENDABLE = on
+}
+
+func init() {
+	if os.Getenv("VERIF_PURGE") == "1" {
+		SetPurge(true)
+	}
+}
+
+// refUnspendable: OP_RETURN first, longer than 10,000 bytes, or "<65-byte key starting with 04> OP_CHECKSIG" whose key
+// is not a point on the curve (judged by refec) - the outputs gocoin's purge option drops.
+func RefUnspendable(scr []byte) bool { return refUnspendable(scr) }
+
+func refUnspendable(scr []byte) bool {
+	if len(scr) > 0 && scr[0] == 0x6a {
+		return true
+	}
+	if len(scr) > 10000 {
+		return true
+	}
+	if len(scr) == 67 && scr[0] == 65 && scr[66] == 0xac && scr[1] == 0x04 {
+		if _, why := refec.ParsePubKey(scr[1:66]); why != "" {
+			return true
+		}
+	}
+	return false
 }
 
 type NodeOpts struct {
@@ -143,10 +180,19 @@ func (n *Node) DumpUTXO() refchain.UTXO {
 }
 
 // DiffUTXO returns a human-readable description of the first differences (empty = equal).
-func DiffUTXO(got, want refchain.UTXO) string {
+// DiffUTXO compares two sets exactly. DiffNodeUTXO compares a set dumped from the node (or parsed from one of its
+// snapshots) with the reference set and follows the purge option.
+func DiffUTXO(got, want refchain.UTXO) string { return diffUTXO(got, want, false) }
+
+func DiffNodeUTXO(got, want refchain.UTXO) string { return diffUTXO(got, want, PurgeUnspendable) }
+
+func diffUTXO(got, want refchain.UTXO, purge bool) string {
 	var diffs []string
 	for k, w := range want {
 		g, ok := got[k]
+		if !ok && purge && refUnspendable(w.Script) {
+			continue
+		}
 		if !ok {
 			diffs = append(diffs, fmt.Sprintf("missing %s:%d (value %d height %d)", k.Hash, k.Idx, w.Value, w.Height))
 			continue
@@ -157,7 +203,7 @@ func DiffUTXO(got, want refchain.UTXO) string {
 		}
 	}
 	for k, g := range got {
-		if _, ok := want[k]; !ok {
+		if _, ok := want[k]; !ok || (purge && refUnspendable(g.Script)) {
 			diffs = append(diffs, fmt.Sprintf("extra %s:%d (value %d height %d)", k.Hash, k.Idx, g.Value, g.Height))
 		}
 	}
